@@ -224,7 +224,7 @@ func (e *env) promoteTo(db2 *dkv.DB, dir string, ck *ckpt, sameDir bool) {
 		}
 	}
 	ck.owner = db2 // the restored database holds ck in its own list
-	e.db = db2
+	e.setDB(db2)
 	e.dir = dir
 	e.model = ck.snap.Clone()
 	e.chain++
